@@ -78,6 +78,12 @@ class FlatTrace:
         ):
             return value.astype(numpy.dtype(str)).tolist()
 
+        if isinstance(value, numpy.ndarray) and numpy.issubdtype(
+            value.dtype,
+            numpy.datetime64,
+        ):
+            return value.astype(numpy.dtype(str)).tolist()
+
         if isinstance(value, numpy.ndarray):
             return value.tolist()
 
